@@ -57,8 +57,8 @@ CHECKS = [
         "Oracle: bytes and wait status recomputed from the script, payload delivery (count + hash seen by the child), check/timeout semantics with a simulated-time bound, "
         "reaping, livelock, and the open descriptor set before/after. Sampling, not proof.",
         "Trusted: the real kernel's pipe/wait/signal semantics (deterministic under lock-step; re-checked by the determinism gate), vsim/child.c, the wrappers in engines/sim_proc.cc. "
-        "Assumes the embedding program ignores SIGPIPE. communicate() is not expected to drain stderr. Only gettimeofday is simulated: a correct change to std::chrono clocks "
-        "(read inside libstdc++.so) is wrongly reported; a child created by vfork/posix_spawn/clone is invisible (DESIGN.md 10).",
+        "Assumes the embedding program ignores SIGPIPE. communicate() is not expected to drain stderr. gettimeofday is simulated, and std::chrono clocks named in repository code are retargeted at compile time (vsim/clock_shim.hh); "
+        "a child created by vfork/posix_spawn/clone is invisible (DESIGN.md 10).",
         "DESIGN.md 4.3", "deterministic simulation with fault injection (lock-stepped real child process, wrapped parent system calls as scheduling points, simulated clock)"),
     chk("C16", "sim-par",
         "Seeded search over thread interleavings: the unmodified Tools.hh templates are instantiated against scheduler-controlled std::atomic/std::thread/std::jthread/std::mutex/std::condition_variable/std::counting_semaphore/std::latch/std::this_thread/usleep/now "
